@@ -479,27 +479,46 @@ def rule_state_alias(repo: Repo, rep: Report, classes: List[ClassInfo]) -> int:
     n = 0
     for ci in classes:
         tattrs = _tensor_attrs(ci)
-        if not tattrs:
-            continue
         for m, fi in ci.methods.items():
             if m in ("__init__", "reset", "reset_state", "reset_parameters") or m.startswith("_create") or m.startswith("_build") or m.startswith("_init"):
                 continue
             aliases: Dict[str, tuple] = {}
+            ldefs: Dict[str, list] = {}
             for st in ast.walk(fi.node):
                 if isinstance(st, ast.Assign) and len(st.targets) == 1 and isinstance(st.targets[0], ast.Name):
-                    e = st.value
-                    while True:
-                        if isinstance(e, ast.Attribute) and e.attr in MAY_ALIAS_ATTRS:
-                            e = e.value
-                        elif isinstance(e, ast.Call) and isinstance(e.func, ast.Attribute) and e.func.attr in MAY_ALIAS_METHODS:
-                            e = e.func.value
-                        elif isinstance(e, ast.Subscript) and all(isinstance(i_, ast.Slice) or (isinstance(i_, ast.Constant) and not isinstance(i_.value, bool)) for i_ in (e.slice.elts if isinstance(e.slice, ast.Tuple) else [e.slice])):
-                            e = e.value
-                        else:
-                            break
-                    ch = attr_chain(e) if isinstance(e, ast.Attribute) else None
-                    if ch and ch.startswith("self.") and ch.count(".") == 1 and ch[5:] in tattrs:
-                        aliases[st.targets[0].id] = (ch, st)
+                    ldefs.setdefault(st.targets[0].id, []).append(st.value)
+
+            def root_of(e, depth=0):
+                """(root description, tensor evidence) of the storage an expression may share, or None"""
+                tensorish = False
+                while True:
+                    if isinstance(e, ast.Attribute) and e.attr in MAY_ALIAS_ATTRS:
+                        e, tensorish = e.value, True
+                    elif isinstance(e, ast.Call) and isinstance(e.func, ast.Attribute) and e.func.attr in MAY_ALIAS_METHODS:
+                        e, tensorish = e.func.value, True
+                    elif isinstance(e, ast.Subscript) and not ((attr_chain(e.value) or "").startswith("self.") and (attr_chain(e.value) or "").count(".") == 1 and (attr_chain(e.value) or "")[5:] not in tattrs) and all(isinstance(i_, ast.Slice) or (isinstance(i_, ast.Constant) and not isinstance(i_.value, bool)) for i_ in (e.slice.elts if isinstance(e.slice, ast.Tuple) else [e.slice])):
+                        e = e.value
+                    else:
+                        break
+                ch = attr_chain(e) if isinstance(e, ast.Attribute) else None
+                if ch and ch.startswith("self.") and ch.count(".") == 1 and ch[5:] in tattrs:
+                    return ch, True
+                # an element handed out by a container attribute (a table of stored tensors): the stored object itself
+                if isinstance(e, ast.Subscript) and (attr_chain(e.value) or "").startswith("self.") and (attr_chain(e.value) or "").count(".") == 1:
+                    return f"{attr_chain(e.value)}[...]", tensorish
+                if isinstance(e, ast.Call) and isinstance(e.func, ast.Attribute) and e.func.attr == "get" and (attr_chain(e.func.value) or "").startswith("self.") and (attr_chain(e.func.value) or "").count(".") == 1:
+                    return f"{attr_chain(e.func.value)}[...]", tensorish
+                if isinstance(e, ast.Name) and depth < 3 and len(ldefs.get(e.id, [])) == 1 and e.id not in fi.params:
+                    r_ = root_of(ldefs[e.id][0], depth + 1)
+                    if r_ is not None:
+                        return r_[0], r_[1] or tensorish
+                return None
+
+            for st in ast.walk(fi.node):
+                if isinstance(st, ast.Assign) and len(st.targets) == 1 and isinstance(st.targets[0], ast.Name):
+                    r_ = root_of(st.value)
+                    if r_ is not None and r_[1]:
+                        aliases[st.targets[0].id] = (r_[0], st)
             if not aliases:
                 continue
             n += 1
